@@ -213,9 +213,10 @@ def enc_atom(b, rng, canonical=False):
     return rng.choice(forms)
 
 
-def enc_value(v, rng, canonical=False, local=True):
+def enc_value(v, rng, canonical=False, local=True, ids_any=False):
     k = v[0]
-    E = lambda x: enc_value(x, rng, canonical, local)  # noqa
+    E = lambda x: enc_value(x, rng, canonical, local, ids_any)  # noqa
+    legacy = ids_any or not canonical     # identifiers may use their older layouts
     if k == "int":
         return enc_int(v[1], rng, canonical)
     if k == "float":
@@ -252,14 +253,14 @@ def enc_value(v, rng, canonical=False, local=True):
     if k == "pid":
         _, node, i, s, c = v
         forms = [bytes([88]) + enc_atom(node, rng, canonical) + struct.pack(">III", i, s, c)]
-        if not canonical and c < 256:
+        if legacy and c < 256:
             forms.append(bytes([103]) + enc_atom(node, rng) + struct.pack(">II", i, s) + bytes([c]))
         f = rng.choice(forms)
         return wrap_local(f, rng) if local and not canonical and rng.random() < 0.25 else f
     if k == "port":
         _, node, i, c = v
         forms = [bytes([120]) + enc_atom(node, rng, canonical) + struct.pack(">QI", i, c)]
-        if not canonical and i < 2**32:
+        if legacy and i < 2**32:
             forms.append(bytes([89]) + enc_atom(node, rng) + struct.pack(">II", i, c))
             if c < 256:
                 forms.append(bytes([102]) + enc_atom(node, rng) + struct.pack(">I", i) + bytes([c]))
@@ -268,7 +269,7 @@ def enc_value(v, rng, canonical=False, local=True):
     if k == "ref":
         _, node, c, ids = v
         forms = [bytes([90]) + struct.pack(">H", len(ids)) + enc_atom(node, rng, canonical) + struct.pack(">I", c) + b"".join(struct.pack(">I", i) for i in ids)]
-        if not canonical and c < 256:
+        if legacy and c < 256:
             forms.append(bytes([114]) + struct.pack(">H", len(ids)) + enc_atom(node, rng) + bytes([c]) + b"".join(struct.pack(">I", i) for i in ids))
             if len(ids) == 1:
                 forms.append(bytes([101]) + enc_atom(node, rng) + struct.pack(">I", ids[0]) + bytes([c]))
